@@ -379,6 +379,89 @@ MUTATORS = {"update", "setdefault", "pop", "popitem", "clear", "append", "extend
 OPTION_ATTRS = {"options", "default_options"}
 
 
+VALUE_MUTATORS = {"append", "extend", "insert", "sort", "reverse", "update", "add", "discard", "remove", "pop", "popitem", "clear", "setdefault",
+                  "appendleft", "extendleft", "__setitem__", "__delitem__", "__iadd__", "__ior__"}
+FRESH_MAKERS = {"list", "dict", "set", "tuple", "frozenset", "sorted", "copy", "deepcopy", "copy.copy", "copy.deepcopy", "OrderedDict", "defaultdict", "deque"}
+
+
+def value_mutations(fn: ast.AST, is_method: bool) -> list:
+    """(node, what) for every in-place change of an object the function did not create: a parameter, or the result of
+    evaluating / transforming / retrieving something.  ``x += y`` counts: for a list it extends x in place."""
+    a = fn.args
+    params = [x.arg for x in a.posonlyargs + a.args + a.kwonlyargs] + ([a.vararg.arg] if a.vararg else []) + ([a.kwarg.arg] if a.kwarg else [])
+    selfname = params[0] if is_method and params else "self"
+    if is_method and params:
+        params = params[1:]
+    foreign = {p: 0 for p in params}       # name -> line from which it denotes a foreign object
+    fresh_at = {}
+    for n in astu.walk_no_nested(fn):
+        if isinstance(n, (ast.Assign, ast.AnnAssign)) and n.value is not None:
+            tg = n.targets[0] if isinstance(n, ast.Assign) and len(n.targets) == 1 else getattr(n, "target", None)
+            if not isinstance(tg, ast.Name):
+                continue
+            v = n.value
+            if isinstance(v, ast.Call) and isinstance(v.func, ast.Attribute) and v.func.attr in ("evaluate", "transform", "get") and (v.args or v.keywords):
+                foreign.setdefault(tg.id, n.lineno)
+            elif is_method and isinstance(v, ast.Attribute) and isinstance(v.value, ast.Name) and v.value.id == selfname and fn.name not in ("__init__", "__setstate__"):
+                # a plain alias of one of the object's own collections: changing it in place changes the object
+                foreign.setdefault(tg.id, n.lineno)
+            elif isinstance(v, (ast.List, ast.Dict, ast.Set, ast.ListComp, ast.DictComp, ast.SetComp, ast.Tuple)) or (
+                    isinstance(v, ast.Call) and astu.callee_name(v) in FRESH_MAKERS):
+                fresh_at[tg.id] = min(fresh_at.get(tg.id, 10 ** 9), n.lineno)
+    out = []
+
+    def is_foreign(name: str, line: int) -> bool:
+        return name in foreign and line >= foreign[name] and not (name in fresh_at and fresh_at[name] <= line)
+    for n in astu.walk_no_nested(fn):
+        if isinstance(n, ast.AugAssign) and isinstance(n.target, ast.Name) and is_foreign(n.target.id, n.lineno) \
+                and isinstance(n.op, (ast.Add, ast.BitOr, ast.BitAnd, ast.Sub, ast.BitXor, ast.Mult)):
+            out.append((n, f"`{n.target.id} {ast.unparse(n)[len(n.target.id):].strip()[:20]}` changes {n.target.id} in place when it is a list, set or dict"))
+        if isinstance(n, (ast.Assign, ast.AugAssign, ast.Delete)):
+            for t in (n.targets if isinstance(n, (ast.Assign, ast.Delete)) else [n.target]):
+                if isinstance(t, ast.Subscript) and isinstance(t.value, ast.Name) and is_foreign(t.value.id, n.lineno):
+                    out.append((n, f"item store/delete on {t.value.id}"))
+        if isinstance(n, ast.Call) and isinstance(n.func, ast.Attribute) and n.func.attr in VALUE_MUTATORS and isinstance(n.func.value, ast.Name) \
+                and is_foreign(n.func.value.id, n.lineno):
+            out.append((n, f"{ast.unparse(n.func)}(…) changes {n.func.value.id} in place"))
+    return out
+
+
+def rule_VM(run: Run) -> RuleResult:
+    """Values are handed on, never changed in place."""
+    res = RuleResult("R-VM")
+    repo = run.repo
+    nec = ("a value that reaches a function as an argument, or comes out of evaluate()/transform()/a cache, may be the very object a cache "
+           "holds or a caller still uses: changing it in place (x += …, x.append(…), x[k] = …) changes what later evaluations return "
+           "(C01, C13) and what the caller sees (C08)")
+    probe = ast.parse("def f(x, i):\n    if isinstance(x, list):\n        x += i\n        return x\n    return x\n").body[0]
+    if not value_mutations(probe, False):
+        raise AnalysisError("R-VM: the in-place-mutation detector no longer sees its positive example")
+    EXEMPT = {"__new__": "the class namespace a metaclass receives is its to fill", "__prepare__": "builds the class namespace",
+              "__setstate__": "restores the object's own state", "__init_subclass__": "class construction"}
+    n = 0
+    for m, cls, fn, q in iter_functions(repo):
+        if m.name.startswith("labrea.mypy") or isinstance(fn, ast.Lambda):
+            continue
+        n += 1
+        is_method = cls is not None and not any(ast.unparse(d) == "staticmethod" for d in fn.decorator_list)
+        hits = value_mutations(fn, is_method)
+        if fn.name in EXEMPT:
+            hits = []
+        # option dictionaries are R-PU's business (it knows which ones the function allocated)
+        hits = [(x, why) for x, why in hits if not any(w in why for w in (" options", "default_options"))]
+        if hits:
+            for x, why in hits:
+                res.add(f"{q}:changes a value it did not create", False, m.relpath, x.lineno, why, nec)
+    for m in repo.modules.values():
+        if m.name.startswith("labrea.mypy"):
+            continue
+        bad = [o for o in res.obligations if not o.ok and o.file == m.relpath]
+        res.add(f"{m.name}:no function changes a foreign value in place", not bad, m.relpath, 1,
+                "parameters and evaluated values are only read, copied or re-bound" if not bad else f"{len(bad)} in-place change(s)", nec)
+    res.count("functions", n)
+    return res
+
+
 def rule_PU(run: Run) -> RuleResult:
     res = RuleResult("R-PU")
     repo = run.repo
@@ -409,6 +492,36 @@ def rule_PU(run: Run) -> RuleResult:
                     fresh.add(tg.id)
         params = {a.arg for a in fn.args.posonlyargs + fn.args.args + fn.args.kwonlyargs}
         tainted = {t for t in tainted if not (t in fresh and t not in params)}
+        # a shallow copy of an options dictionary (dict(o), o.copy(), {**o}) still shares every nested section with it:
+        # writing a dotted key into the copy, or storing below its first level, writes into the original
+        shallow: Set[str] = set()
+        for n in astu.walk_no_nested(fn):
+            if isinstance(n, (ast.Assign, ast.AnnAssign)) and n.value is not None:
+                tg = n.targets[0] if isinstance(n, ast.Assign) else n.target
+                v = n.value
+                src = None
+                if isinstance(v, ast.Call) and astu.short_name(v) == "dict" and len(v.args) == 1 and not v.keywords:
+                    src = v.args[0]
+                elif isinstance(v, ast.Call) and isinstance(v.func, ast.Attribute) and v.func.attr == "copy" and not v.args:
+                    src = v.func.value
+                elif isinstance(v, ast.Dict) and len(v.keys) >= 1 and v.keys[0] is None:
+                    src = v.values[0]
+                if isinstance(tg, ast.Name) and src is not None and ((isinstance(src, ast.Name) and (src.id in tainted or src.id in params and "option" in src.id.lower()))
+                                                                     or (isinstance(src, ast.Attribute) and src.attr in OPTION_ATTRS)
+                                                                     or (isinstance(src, ast.Name) and src.id in params and any(
+                                                                         a2.arg == src.id and a2.annotation is not None and "Options" in ast.unparse(a2.annotation)
+                                                                         for a2 in fn.args.posonlyargs + fn.args.args + fn.args.kwonlyargs))):
+                    shallow.add(tg.id)
+        shallow_bad = []
+        for n in astu.walk_no_nested(fn):
+            if isinstance(n, ast.Call) and astu.short_name(n) == "set_dotted_key" and len(n.args) >= 3 and isinstance(n.args[2], ast.Name) and n.args[2].id in shallow:
+                shallow_bad.append((n, f"set_dotted_key writes a dotted key into {n.args[2].id}, a shallow copy: the nested sections it descends into are the original's"))
+            if isinstance(n, (ast.Assign, ast.AugAssign)):
+                for t in (n.targets if isinstance(n, ast.Assign) else [n.target]):
+                    if isinstance(t, ast.Subscript) and isinstance(t.value, ast.Subscript) and isinstance(t.value.value, ast.Name) and t.value.value.id in shallow:
+                        shallow_bad.append((n, f"nested item store into {t.value.value.id}, a shallow copy: the section stored into is the original's"))
+        for n, why in shallow_bad:
+            res.add(f"{q}:{why.split(',')[0]}", False, m.relpath, n.lineno, why, nec)
 
         def is_opt(e) -> bool:
             if isinstance(e, ast.Name):
